@@ -194,12 +194,12 @@ def IsMintEtch (blk : Block) (tx : Tx) (e : Event) : Prop :=
 /-- The pieces of one successful `indexRunesTx`. -/
 theorem indexRunesTx_parts (st : State) (blk : Block) (i : Nat) (tx : Tx) (bb : Balances) (st' : State)
     (bb' : Balances) (evs : List Event) (hx : indexRunesTx st blk i tx bb = .ok (st', bb', evs)) :
-    ∃ st0 un0 st3 evs1 rows burned0 burned evs2,
+    ∃ st0 un0 st3 evs1 alloc2 burned0 burned evs2,
       takeInputs tx.inputs st [] = .ok (st0, un0) ∧
       st3.balances = st0.balances ∧
       (AL.get st0.runeEntries ⟨blk.height, i⟩ = none → ∀ id, EB st3 id = EB st0 id) ∧
       (∀ e ∈ evs1, IsMintEtch blk tx e) ∧
-      writeOutputs blk tx rows st3 burned0 evs1 = .ok (st', burned, evs2) ∧
+      writeOutputs blk tx (enumFrom 0 alloc2) st3 burned0 evs1 = .ok (st', burned, evs2) ∧
       addAllTo burned bb false = .ok bb' ∧
       evs = evs2 ++ burned.map (fun (id, a) => Event.runeBurned a blk.height id tx.txid) := by
   unfold indexRunesTx at hx
@@ -284,7 +284,7 @@ theorem indexRunesTx_binv (c : List Block) {rs : ReplayState} {st : State} {bb :
     (blk : Block) (i : Nat) (tx : Tx) (st' : State) (bb' : Balances) (evs : List Event)
     (habs : AL.get st.runeEntries ⟨blk.height, i⟩ = none)
     (hx : indexRunesTx st blk i tx bb = .ok (st', bb', evs)) : BInv (evs.foldl (applyEvent c) rs) st' bb' := by
-  obtain ⟨st0, un0, st3, evs1, rows, burned0, burned, evs2, hti, -, h3, hev1, hwo, hadd, rfl⟩ :=
+  obtain ⟨st0, un0, st3, evs1, alloc2, burned0, burned, evs2, hti, -, h3, hev1, hwo, hadd, rfl⟩ :=
     indexRunesTx_parts st blk i tx bb st' bb' evs hx
   have h0 := takeInputs_rframe _ _ _ _ _ hti
   obtain ⟨hre, add, rfl, hadd2⟩ := writeOutputs_rframe blk tx _ _ _ _ _ _ _ hwo
